@@ -36,6 +36,7 @@ Proof. exact sync_one_runs_plan. Qed.
 (* one file transfer in isolation: whatever phase it is in, every observable state of every chunk command is safe *)
 Theorem C08_chunk_step : forall fl p mt full v0 f0, fget f0 p = v0 ->
   forall done st data set_mt more,
+  blocked_at st p = false ->
   phase p v0 f0 done st ->
   (more = true -> set_mt = None) -> (more = false -> set_mt = Some mt /\ concat (done ++ [data]) = full) ->
   let c := CCreateOrUpdateFile p data set_mt more in
